@@ -4,7 +4,7 @@ from ref import pools, ellswift
 
 ID = "C18"
 LEVEL = "exploration"
-CONFIGS = {"quick": ["san", "san_nv"], "thorough": ["san", "san_nv", "mx_i64", "mx_i128s"]}
+CONFIGS = {"quick": ["san", "san_nv", "mx_i64"], "thorough": ["san", "san_nv", "mx_i64", "mx_i128s"]}
 RULE = ("ecdh with every hash choice (default, explicit sha256, raw x||y, failing callback) on pool secrets (0, 1, n-1, n, >= n) and peers; "
         "ellswift_decode on random strings, u / t in {0, p, p+1, 2^256-1}, the u^3+t^2+7 = 0 family and strings reaching each branch x1/x2/x3 of "
         "the map; ellswift_encode / create for pool keys and many randomness values, decoded back by library and model; ellswift_xdh for both "
@@ -143,7 +143,7 @@ def wl_xdh(ctx, config):
                 ctx.check(rb.ret == 1 and rb.b(1) == ra.b(1), "ellswift_xdh:parties_disagree", "ell_a=%s ell_b=%s" % (ell_a.hex(), ell_b.hex()), config)
 
 def run(ctx):
-    for config in ctx.configs:
+    for config in ctx.cfgs():
         wl_ecdh(ctx, config)
         wl_decode(ctx, config)
         wl_encode(ctx, config)
